@@ -30,6 +30,8 @@ def run_consumer_symbols(ctx: Ctx, f: FuncInfo, g):
             op = C.consumer_op(ctx, n, ("pause", "unpause"))
             if op:
                 return op
+            if C.consumer_op(ctx, n, ("consume", "__anext__")):
+                return "recv"  # an explicit `await consumer.consume()` loop instead of `async for ... in consumer`
             bop = C.broker_op(ctx, n)
             if bop:
                 return bop
@@ -341,7 +343,7 @@ def actor_contained(ctx: Ctx, rule: str) -> None:
                     return None
             return f"used in {type(p).__name__}"
 
-        why = consumed(call)
+        why = "asyncio.shield(...)" if getattr(call, "_shielded", False) else consumed(call)  # (the model reads shield(x) as x and marks x)
         ctx.check(why is None, rule, fn, "the actor coroutine is awaited by actor_run (directly or under wait_for)", "its lifetime ends with the processing task, timeout cancels it",
                   f"{fn.short()} does not await the actor's coroutine in place: {why} - after a timeout or cancellation of the processing task the actor body keeps running while its slot "
                   "is released, so more than tasks_limit actor bodies are in progress", node=call, instance=f"{fn.short()}: actor awaited in place")
